@@ -93,6 +93,7 @@ def run(ctx):
     n = 3000 if ctx.thorough() else 500
     bad = None
     stats = collections.Counter()
+    distinct = set()
     samples = []
     for i in range(n):
         cls = [OrderedMultiDict, PVLModule, PVLGroup, PVLObject][i % 4]
@@ -101,6 +102,7 @@ def run(ctx):
             m.errors = [3, 1]
         srepr = snap(m)
         prepr = repr(m)
+        distinct.add((cls.__name__, prepr))
         scls = classes(m)
         for name, fn in MECH.items():
             why = None
@@ -165,7 +167,7 @@ def run(ctx):
         core.violation(ctx, "container", bad, True)
     elif not lean["ok"]:
         core.violation(ctx, "proof", {"what": "C11 proof obligations no longer check", "broken": lean["problems"]}, False)
-    cov = {"evaluations": n * 4, "distinct_nontrivial": n * 4,
+    cov = {"evaluations": n * 4, "distinct_nontrivial": len([1 for c_, p_ in distinct if len(p_) > 30]) * 4,
            "rule": "%d random containers (nested to depth 2, duplicate keys, lists inside, the four classes, modules "
                    "with an errors attribute) x {.copy(), copy.copy, copy.deepcopy, pickle}: equality both ways, "
                    "identical repr, same class at every level, original untouched; then random top-level mutations "
